@@ -224,7 +224,30 @@ func entries(b []byte) (map[string]string, error) {
 	return out, nil
 }
 
+// FirstCalls is the menu of the fresh-process call-order check.
+func FirstCalls() []fw.Call {
+	var out []fw.Call
+	for _, ps := range [][]string{{"go.mod", "a.go", "vendor/x/y.go", "vendor/modules.txt"}, {"a.go", "A.go"}, {"sub/go.mod", "sub/x.go", "y.go"}, {"GO.MOD", "go.mod", "pkg/vendor/v.go"}, {".git/config", "a.go", "CON"}} {
+		ps := ps
+		out = append(out, fw.Call{Name: fmt.Sprintf("CheckFiles%v", ps), F: func() string {
+			msg, rep, errNil := listCase(ps, make([]zipref.Mode, len(ps)), zipx.GoMods[0])
+			return fmt.Sprint(msg, rep.Valid, rep.Omitted, rep.Invalid, errNil)
+		}})
+	}
+	out = append(out, fw.Call{Name: "tree", F: func() string {
+		scratch, err := os.MkdirTemp("/dev/shm", "verif-first-")
+		if err != nil {
+			return "no scratch"
+		}
+		defer os.RemoveAll(scratch)
+		msg, ok := treeCase(scratch, 1, []string{"go.mod", "a.go", "sub/go.mod", "sub/x.go", "vendor/p/q.go"}, zipx.GoMods[0])
+		return fmt.Sprint(msg, ok)
+	}})
+	return out
+}
+
 func Run(r *fw.Run) {
+	defer fw.FirstCallOrders(r, r.ID, FirstCalls(), nil)
 	pool3 := zipx.Pool
 	r.Bounds["pool"] = q(zipx.Pool)
 	r.Bounds["pool_for_triples"] = len(pool3)
